@@ -104,8 +104,15 @@ def parse_def(kind, node):
     return m.parse.argparse_ast(node)
 
 
-def def_source(kind, ir, name, function_type="static", receiver=None):
+def def_source(kind, ir, name, function_type="static", receiver=None, style=None):
     node = emit_def(kind, ir, name, function_type)
+    if style == "positional" and kind == "function" and node.args.kwonlyargs and not node.args.defaults \
+            and all(d is not None for d in node.args.kw_defaults):
+        # the parameters declared the way people write them, positional-or-keyword with defaults: def f(a=1, b='x')
+        # (doctrans itself emits them keyword-only: def f(*, a=1, b='x'))
+        node.args.args = list(node.args.args) + list(node.args.kwonlyargs)
+        node.args.defaults = list(node.args.kw_defaults)
+        node.args.kwonlyargs, node.args.kw_defaults = [], []
     if receiver == "posonly" and kind == "function" and function_type != "static" and node.args.args \
             and node.args.args[0].arg in ("self", "cls"):
         # the receiver declared positional-only: `def method(self, /, a, b)`
@@ -175,7 +182,7 @@ def nested_same_named(kind, short, form):
 
 
 def assemble_target(rng, kind, name, def_src, sur, position, trailing_newline, class_members=None, ending=None,
-                    module_doc=False, same_named_top=False, same_named_after=False, nested=None):
+                    module_doc=False, same_named_top=False, same_named_after=False, nested=None, forward_decl=None):
     """module text with `def_src` (None = absent) placed among `sur`.  For dotted names ('C.meth', 'Outer.K'):
     the definition lives inside the enclosing class together with `class_members`; with same_named_top a module-level
     statement of the same simple name is put before the enclosing class.  `nested` (a NESTED_FORMS name): a compound
@@ -209,6 +216,13 @@ def assemble_target(rng, kind, name, def_src, sur, position, trailing_newline, c
         if same_named_after:
             # a later statement of the same scope that rebinds the name (registration / decoration by hand)
             chunks.insert(idx + 1, "%s = register(%s)" % (name, name) if kind == "class" else "%s = decorate(%s)" % (name, name))
+        if forward_decl and kind == "class":
+            # the name is bound first at the top of the module so that helpers defined above the definition can refer to it
+            # (class targets only: with a function or argparse-function target the unchanged tree raises AssertionError,
+            # get_function_type being handed the assignment - reported as a finding, kept out of the generator)
+            chunks[0:0] = {"none": ["%s = None" % name],
+                           "none-and-user": ["%s = None" % name, "def default_%s():\n    return %s" % (name.lower(), name)],
+                           "annotated": ["%s: object = None" % name]}[forward_decl]
     if module_doc:
         chunks.insert(0, '"""Module documentation.\n\nSecond paragraph of it.\n"""')
     text = "\n\n\n".join(chunks)
@@ -267,7 +281,11 @@ def gen_scenario(rng, via="api", runs=2, allow_known=True):
                       # definition proper
                       "nested": rng.choice(NESTED_FORMS) if rng.random() < 0.15 else None,
                       # a method target whose receiver is declared positional-only: def m(self, /, ...)
-                      "receiver": "posonly" if rng.random() < 0.25 else None}
+                      "receiver": "posonly" if rng.random() < 0.3 else None,
+                      # a function target written with positional-or-keyword parameters: def f(a=1) rather than def f(*, a=1)
+                      "style": "positional" if rng.random() < 0.3 else None,
+                      # the target's name is forward-declared at the top of its module (X = None ... class X)
+                      "forward_decl": rng.choice(["none", "none-and-user", "annotated"]) if rng.random() < 0.12 else None}
     if targets and rng.random() < 0.08:
         # the file holding the truth is ALSO named as the file of another kind: it must still never be modified
         targets[rng.choice(sorted(targets))]["alias_truth"] = True
@@ -286,7 +304,9 @@ def gen_scenario(rng, via="api", runs=2, allow_known=True):
             # after the regular runs: the truth is edited (its modification time kept) and sync runs once more
             "truth_edit": rng.random() < 0.25,
             # a method truth whose receiver is declared positional-only: def m(self, /, ...)
-            "receiver": "posonly" if rng.random() < 0.3 else None}
+            "receiver": "posonly" if rng.random() < 0.5 else None,
+            # a function truth written with positional-or-keyword parameters: def f(a=1) rather than def f(*, a=1)
+            "style": "positional" if rng.random() < 0.5 else None}
 
 
 def build_project(scn, root):
@@ -332,7 +352,7 @@ def build_project(scn, root):
             if pre == "absent":
                 dsrc = None
             elif pre == "stale":
-                dsrc = def_source(k, stale, short, ftype if k == "function" else "static", t.get("receiver"))
+                dsrc = def_source(k, stale, short, ftype if k == "function" else "static", t.get("receiver"), t.get("style"))
             elif pre == "stale-tail" and k == "class":
                 node = emit_def(k, gold_ir if gold_ir is not None else ir, short)
                 first = 1 if ast.get_docstring(node) is not None else 0
@@ -343,11 +363,12 @@ def build_project(scn, root):
                 dsrc = ast.unparse(node)
             else:
                 dsrc = def_source(k, gold_ir if gold_ir is not None else ir, short, ftype if k == "function" else "static",
-                                  t.get("receiver"))
+                                  t.get("receiver"), t.get("style"))
             text = assemble_target(srng, k, name, dsrc, sur, t["position"], t["trailing_newline"], members,
                                    ending=t.get("ending"), module_doc=t.get("module_doc", False),
                                    same_named_top=t.get("same_named_top", False),
-                                   same_named_after=t.get("same_named_after", False), nested=t.get("nested"))
+                                   same_named_after=t.get("same_named_after", False), nested=t.get("nested"),
+                                   forward_decl=t.get("forward_decl"))
         with open(paths[tk], "w") as f:
             f.write(text)
     return {"paths": paths, "ir": ir, "stale": stale, "gold_ir": gold_ir, "ftype": ftype}
@@ -358,7 +379,7 @@ def write_truth(scn, ir, path, ftype, keep_mtime=False):
     import random
     truth, names = scn["truth"], scn["names"]
     tname = names[truth].split(".")[-1]
-    tsrc = def_source(truth, ir, tname, ftype, scn.get("receiver"))
+    tsrc = def_source(truth, ir, tname, ftype, scn.get("receiver"), scn.get("style"))
     if scn.get("body") is not None and truth == "function":
         pn = list(ir["params"]) or ["None"]
         lines = [l.format(p0=pn[0], p1=pn[-1]) for l in BODIES[scn["body"]]]
